@@ -61,11 +61,13 @@ func vfBPEVocab(withSpecial bool) (*Vocabulary, int32) {
 
 // Stand-in for the pre-tokenizer: an arbitrary partition of the text into consecutive non-empty
 // pieces (the cut points are solver-chosen). Replaces (*BytePairEncoding).split in the engine.
+var vfNoCuts bool
+
 func vfSplitAny(bpe *BytePairEncoding, s string) iter.Seq[string] {
 	return func(yield func(string) bool) {
 		start := 0
 		for i := 1; i <= len(s); i++ {
-			if i == len(s) || verifNondetBool("cut") {
+			if i == len(s) || (!vfNoCuts && verifNondetBool("cut")) {
 				if !yield(s[start:i]) {
 					return
 				}
@@ -78,9 +80,18 @@ func vfSplitAny(bpe *BytePairEncoding, s string) iter.Seq[string] {
 // VerifC20BPE: every valid UTF-8 text of up to maxLen bytes without NUL, every partition by the
 // pre-tokenizer.
 func VerifC20BPE(maxLen int, withSpecial int) {
-	vocab, special := vfBPEVocab(withSpecial != 0)
+	vocab, special := vfBPEVocab(withSpecial != 0 && withSpecial != 3)
 	bpe := BytePairEncoding{vocab: vocab}
 	s := verifNondetString("text", maxLen)
+	if withSpecial == 3 {
+		// repeated-letter texts: every string over {a, b, c} of up to maxLen bytes, as one piece (runs of
+		// equal letters queue several merges of one rank, some of which go stale)
+		for i := 0; i < len(s); i++ {
+			verifAssume(s[i] == 'a' || s[i] == 'b' || s[i] == 'c')
+		}
+		vfNoCuts = true
+		defer func() { vfNoCuts = false }()
+	}
 	if withSpecial == 2 { // two occurrences of the control token's literal around the symbolic part
 		s = vfSpecialLit + s + vfSpecialLit
 	}
